@@ -61,11 +61,11 @@ class Scen:
 class WriteScen(Scen):
     cmd = "writehist"
 
-    def __init__(self, name, cfg, content, ops, manual=1):
-        self.name, self.cfg, self.content, self.ops, self.manual = name, cfg, content, ops, manual
+    def __init__(self, name, cfg, content, ops, manual=1, recover=0):
+        self.name, self.cfg, self.content, self.ops, self.manual, self.recover = name, cfg, content, ops, manual, recover
 
     def job(self, plans):
-        j = ["chunk 1", self.cfg.line(manual=self.manual), "content %s" % self.content.hex(), "read -", "trace 1"]
+        j = ["chunk 1", self.cfg.line(manual=self.manual), "content %s" % self.content.hex(), "read -", "trace 1", "recover %d" % self.recover]
         for p in plans:
             j += ["plan %s" % (p or "-"), "hist %s" % self.ops]
         return "\n".join(j) + "\n"
@@ -74,6 +74,16 @@ class WriteScen(Scen):
         return c.first("W")
 
     def judge(self, r, base):
+        if self.recover and r["close"] == "1" and r["fail"] == "1":
+            # the caller cleared the error after a failed call, went on and closed: whatever the library then calls a
+            # successfully closed file has to be a file (which writes it holds is not judged)
+            try:
+                zckref.decode(core.unhex(r["file"]))
+            except zckref.Invalid as e:
+                return "successful-close-after-cleared-error-leaves-undecodable-file", "a call failed, the error was cleared, close succeeded: %s" % e
+            except zckref.Unspecified:
+                pass
+            return None
         if r["close"] == "1" and r["fail"] == "0" and r["file"] != base["file"]:
             return "writer-reports-success-with-incomplete-output", "close succeeded but the output holds %d bytes, fault-free output %d bytes" % (
                 len(core.unhex(r["file"])) if not r["file"].startswith("#") else -1, len(core.unhex(base["file"])) if not base["file"].startswith("#") else -1)
@@ -273,6 +283,7 @@ def scenarios(ctx):
     content = blk["a"] + blk["b"] + blk["c"]
     ops = "w23,e,w31,e,w17,e"
     S = [WriteScen("lib-write-none", n0, content, ops), WriteScen("lib-write-zstd-dict", zd, content, ops),
+         WriteScen("lib-write-none-recover", n0, content, ops, recover=1), WriteScen("lib-write-zstd-dict-recover", zd, content, ops, recover=1),
          WriteScen("lib-write-auto-40k", n0, core.prng_bytes(40000, 3), "w10000,w30000", manual=0)]
     files = universe.lib_files([("abc", n0), ("abc", zd), ("aab", z0), ("ab", n0)], ctx.seed)
     fn, fzd, faab, fab = files
